@@ -76,7 +76,7 @@ def explains (guard : String) (c : Crash) : Bool :=
   else false
 
 /-- sig of a crash: the failing modelled guard that explains the observed site, else the site. -/
-def attribute (o : Oracle) (j : J) (c : Crash) : Bool × String :=
+def attributeCrash (o : Oracle) (j : J) (c : Crash) : Bool × String :=
   let initPhase := c.phase == "Init" || c.phase == "Inject" || c.phase == "Inherit"
   let fallback := (false, "panic:" ++ c.phase ++ ":" ++ c.site)
   if initPhase then
@@ -124,7 +124,7 @@ def judge : Judge := liftJudge fun input obs => do
     pure { agree := true, spec := !(accepted && crashed), expected := expected,
            tags := tags ++ ["null-element"], nontrivial := accepted,
            sig := if accepted && crashed then
-                    (match attribute o j cr with
+                    (match attributeCrash o j cr with
                      | (true, g) => g
                      | (false, g) => if has cr.msg "nil pointer dereference" then "panic:null-element" else g)
                   else "",
@@ -132,14 +132,14 @@ def judge : Judge := liftJudge fun input obs => do
   else if accepted != valid then
     -- accept/reject disagreement: the correspondence is broken (and a crash is still a violation)
     pure { agree := false, spec := !(accepted && crashed), expected := expected, tags := tags ++ ["valid-mismatch"],
-           sig := if accepted && crashed then (attribute o j cr).2 else "",
+           sig := if accepted && crashed then (attributeCrash o j cr).2 else "",
            note := "validation " ++ (if accepted then "accepted" else "rejected: " ++ optStr obs "err")
                    ++ " but model valid=" ++ toString valid }
   else if !accepted then
     pure { agree := true, spec := true, expected := expected, tags := tags, nontrivial := false }
   else
     if crashed then
-      let (agree0, sig) := attribute o j cr
+      let (agree0, sig) := attributeCrash o j cr
       -- a Handle crash of a spec whose Init should already have failed is a disagreement
       let agree := agree0 && (initOK || phase == "Init" || phase == "Inject" || phase == "Inherit")
       pure { agree := agree, spec := false, expected := expected, tags := tags, sig := sig,
